@@ -36,6 +36,10 @@ def oracle(ctx, cases):
             pass
         if isinstance(v, float):
             probes += [v * (1 + 9e-10), v * (1 - 9e-10), v + 9e-10, v - 9e-10]
+        try:
+            probes += valcases.absent_key_probes(s, v)       # keys the schema declares but v does not give
+        except Exception:  # noqa: BLE001
+            pass
         for base in [v] + gens[:1]:
             ps = gen_value.perturb(base, ctx.rnd, zoo_n=1)
             probes += ctx.rnd.sample(ps, min(len(ps), ctx.n(10, 30)))
@@ -57,7 +61,7 @@ def oracle(ctx, cases):
 
 def run(ctx):
     runner.prove(ctx, MODULE, THEOREMS, FILES)
-    cases = substcorr.batch(ctx, ctx.n(90, 700), customs=False) + substcorr.open_dict_any_cases(ctx, ctx.n(150, 1500)) + substcorr.list_window_cases(ctx)
+    cases = substcorr.batch(ctx, ctx.n(90, 700), customs=False) + substcorr.open_dict_any_cases(ctx, ctx.n(150, 1500)) + substcorr.list_window_cases(ctx) + substcorr.float_precision_cases(ctx)
     # tight scalar corpus: bounds coinciding with the substituted value
     for s, w in valcases.scalar_corpus():
         if valcases._size(w) > 200:
